@@ -134,36 +134,50 @@ def run(ctx, ck):
                'but the report line with that label writes %s (kinds %s): %s is in radians'
                % ([norm(a) for a in bvals], bkinds, [norm(a) for a in svals], skinds, bad))
     ck.ob('R-KIND.degrees', bf.qual, ok, bf.loc(bmod), why)
-    # angle conversions in report writers
+    # angle conversions in report writers: every printed value that is computed from np.angle(...)
+    # is (angle) / pi * 180 - wherever the conversion is written (same name, new name, helper)
+    from ..fmt import printed_values
     n_ang = 0
-    for f in sorted(m.all_funcs(), key=lambda x: x.qual):
-        if 'as_mininec' not in f.name:
+    prog = ctx.program
+    writers = [f for f in m.all_funcs() if 'as_mininec' in f.name]
+    cl = prog.closure(writers, edge_filter=lambda e: e.kind == 'call')
+    for q_ in sorted(cl):
+        f = m.funcs[q_]
+        if not any(isinstance(c, ast.Call) and (dotted(c.func) or '') == 'np.angle' for c in walk_no_nested(f.node)):
             continue
-        fl = None
+        fl = ctx.flow(f)
+        seen_ = set()
+        # values handed to a formatter: %-format / f-string / format_float arguments, and values
+        # returned by a helper (judged where they are computed)
+        cands = [(v, n) for sp, v, n in printed_values(f, fl) if v is not None]
         for c in walk_no_nested(f.node):
-            if isinstance(c, ast.Call) and (dotted(c.func) or '') == 'np.angle':
-                fl = fl or ctx.flow(f)
-                # find the name the angle is stored in and follow it to the use in a format
-                st = enclosing_stmt(c)
-                tgt = st.targets[0].id if isinstance(st, ast.Assign) and isinstance(st.targets[0], ast.Name) else None
-                conv_here = expr_unit(st.value, {}) if isinstance(st, ast.Assign) else None
-                ok = conv_here == 'deg'
-                if not ok and tgt:
-                    # a later re-assignment  a = a / np.pi * 180  dominating every use
-                    later = [s for s in walk_no_nested(f.node) if isinstance(s, ast.Assign) and
-                             isinstance(s.targets[0], ast.Name) and s.targets[0].id == tgt and s is not st
-                             and expr_unit(s.value, {}) == 'deg' and
-                             any(isinstance(x, ast.Name) and x.id == tgt for x in ast.walk(s.value))]
-                    uses = [u for u in walk_no_nested(f.node) if isinstance(u, ast.Name) and u.id == tgt and
-                            isinstance(u.ctx, ast.Load) and isinstance(parent(u), (ast.Tuple,))]
-                    if later and uses:
-                        lid = fl.node_id_of(later[0])
-                        ok = all(fl.cfg.must_pass(fl.node_id_of(u), {lid}, start=fl.node_id_of(st)) for u in uses)
-                n_ang += 1
-                ck.ob('R-KIND.angle-conversion', '%s|%s' % (f.qual, norm(c)), ok, f.loc(c),
-                      'angle %s converted to degrees before printing' % norm(c) if ok else
-                      'np.angle result printed without / pi * 180')
-    ck.floor('np.angle sites in report writers', n_ang, 6)
+            if isinstance(c, ast.Call) and isinstance(c.func, ast.Name) and c.func.id == 'format_float' and c.args:
+                from ..fmt import written_values
+                for v in written_values(c.args[0], fl, fl.node_id_of(c)):
+                    cands.append((v, c))
+            if isinstance(c, ast.Return) and c.value is not None:
+                for v in (c.value.elts if isinstance(c.value, ast.Tuple) else [c.value]):
+                    cands.append((v, c))
+            if isinstance(c, ast.Call) and isinstance(c.func, ast.Name) and c.func.id == 'zip':
+                for v in c.args:
+                    base = v.value if isinstance(v, ast.Attribute) and v.attr == 'flat' else v
+                    cands.append((base, c))
+        for v, node in cands:
+            at = fl.node_id_of(node)
+            e = fl.inline(v, at, depth=5)
+            angs = [c for c in ast.walk(e) if isinstance(c, ast.Call) and (dotted(c.func) or '') == 'np.angle']
+            if not angs:
+                continue
+            key = '%s|%s' % (f.qual, norm(angs[0]))
+            if key in seen_:
+                continue
+            seen_.add(key)
+            ok = expr_unit(e, {}) == 'deg'
+            n_ang += 1
+            ck.ob('R-KIND.angle-conversion', key, ok, f.loc(node),
+                  'angle %s converted to degrees before printing' % norm(angs[0]) if ok else
+                  'value %s reaches the formatter without / pi * 180' % norm(e)[:70])
+    ck.floor('np.angle values reaching a formatter', n_ang, 3)
 
     # ---------------------------------------------------------------- D2
     w = m.func('mininec.Mininec.as_basic_input')
@@ -190,67 +204,74 @@ def run(ctx, ck):
         wfl.cfg.must_pass(wfl.cfg.node_of(lp[0]), {wfl.node_id_of(cnt[0])})
     ck.ob('R-EXH.counts', w.qual + '|sources', ok, w.loc(cnt[0] if cnt else None),
           'NO. OF SOURCES = len(self.sources), then one block per source')
-    # wires
-    nw = [s for s in walk_no_nested(w.node) if isinstance(s, ast.Assign) and
-          norm(s.value) == 'sum((w.n_emulated_wires for w in self.geo))']
-    ok = len(nw) == 1
-    if ok:
-        v = nw[0].targets[0].id
-        cnt, lp = appended_after(v, 'self.geo', 'as_basic_input')
-        ok = len(cnt) == 1 and len(lp) == 1 and one_per_iter(lp[0], 'as_basic_input') == (1, 1)
-    ck.ob('R-EXH.counts', w.qual + '|wires', ok, w.loc(nw[0] if nw else None),
-          'NO. OF WIRES = sum of emulated wires, then one writer call per object')
-    # loads
-    acc = [s for s in walk_no_nested(w.node) if isinstance(s, ast.AugAssign) and isinstance(s.op, ast.Add)
-           and norm(s.value) == 'len(l.pulses)']
-    ok = len(acc) == 1
-    if ok:
-        v = acc[0].target.id
-        cnt, lp = appended_after(v, 'self.loads', 'as_basic_input')
-        l0 = parent(acc[0])
-        ok = len(cnt) == 1 and len(lp) == 1 and one_per_iter(lp[0], 'as_basic_input') == (1, 1) and \
-            isinstance(l0, ast.For) and norm(l0.iter) == 'self.loads' and \
-            loop_reaches_on_all_paths(wfl, l0, lambda n: n.stmt is acc[0]) == (1, 1)
-        init = [d for d in wfl.def_exprs(v, wfl.cfg.node_of(l0)) if d[0] == 'assign' and
-                d[2] not in wfl.cfg.loops[wfl.cfg.node_of(l0)][0]]
-        ok = ok and [norm(d[1]) for d in init] == ['0']
-    ck.ob('R-EXH.counts', w.qual + '|loads', ok, w.loc(acc[0] if acc else None),
-          'NUMBER OF LOADS = sum(len(l.pulses)), then one writer call per load')
+    # counts announced as a sum over a collection (accumulator loop or sum(generator))
+    from ..lines import sums_over, entries_per_element
+    announced = {}
+    for s_ in walk_no_nested(w.node):
+        if isinstance(s_, ast.Expr) and isinstance(s_.value, ast.Call) and norm(s_.value.func) == 'r.append' and \
+           len(s_.value.args) == 1:
+            a_ = s_.value.args[0]
+            if isinstance(a_, ast.Call) and isinstance(a_.func, ast.Name) and a_.func.id == 'str' and \
+               len(a_.args) == 1 and isinstance(a_.args[0], ast.Name):
+                for kind_, it_, el_, lp_, st_ in sums_over(wfl, a_.args[0].id, wfl.node_id_of(s_)):
+                    announced.setdefault((it_, el_), []).append((s_, st_))
+    ck.info('announced_sums', sorted('%s over %s' % (el_, it_) for it_, el_ in announced))
+
+    def blocks_follow(key, label, text):
+        hits = announced.get(key, [])
+        ok = len(hits) == 1
+        if ok:
+            lp = [l for l in loops_in(w.node) if isinstance(l, ast.For) and norm(l.iter) == key[0] and
+                  any(isinstance(c, ast.Call) and isinstance(c.func, ast.Attribute) and c.func.attr == 'as_basic_input'
+                      for c in ast.walk(l))]
+            ok = len(lp) == 1 and one_per_iter(lp[0], 'as_basic_input') == (1, 1) and \
+                wfl.cfg.must_pass(wfl.cfg.node_of(lp[0]), {wfl.node_id_of(hits[0][0])})
+        ck.ob('R-EXH.counts', w.qual + '|' + label, ok, w.loc(hits[0][1] if hits else None), text)
+    blocks_follow(('self.geo', '_.n_emulated_wires'), 'wires',
+                  'NO. OF WIRES = sum of emulated wires, then one writer call per object')
+    blocks_follow(('self.loads', 'len(_.pulses)'), 'loads',
+                  'NUMBER OF LOADS = sum(len(l.pulses)), then one writer call per load')
     # each load writer: one entry per pulse
     for q in ('mininec.Impedance_Load.as_basic_input', 'mininec.Distributed_Load.as_basic_input',
               'mininec.Laplace_Load.as_basic_input'):
         g = m.func(q)
-        gfl = ctx.flow(g)
-        ls = [l for l in loops_in(g.node) if isinstance(l, ast.For) and norm(l.iter) == 'self.pulses']
-        ok = len(ls) == 1
-        cntr = None
-        if ok:
-            def is_head(n):
-                s = n.stmt
-                return n.kind == 'stmt' and isinstance(s, ast.Expr) and isinstance(s.value, ast.Call) and \
-                    isinstance(s.value.func, ast.Attribute) and s.value.func.attr == 'append' and \
-                    'pulse.idx + 1' in norm(s)
-            cntr = loop_reaches_on_all_paths(gfl, ls[0], is_head)
-            ok = cntr == (1, 1)
-        ck.ob('R-EXH.counts', q, ok, g.loc(), 'one entry (with 1-based pulse number) per attached pulse: %s' % (cntr,))
-    # wire blocks
+        form, cntr = entries_per_element(ctx, g, 'self.pulses', lambda txt, v: ('%s.idx + 1' % v) in txt)
+        ck.ob('R-EXH.counts', q, cntr == (1, 1), g.loc(),
+              'one entry (with 1-based pulse number) per attached pulse: %s %s' % (form, cntr))
+    # wire blocks: on every path the answers come in blocks of five (segments, end 1, end 2, radius, N);
+    # a single wire writes one block, an emulated one a first block plus one per further segment
+    from ..fmt import Evaluator, template_text, arg_text
     g = m.func('mininec.Geobj.as_basic_input')
-    gfl = ctx.flow(g)
-    top = [n for n in g.body() if isinstance(n, ast.If) and norm(n.test) == 'self.n_emulated_wires == 1']
-    ok = len(top) == 1
-    why = 'unexpected shape'
-    if ok:
-        single = [s for s in top[0].body if isinstance(s, ast.Expr)]
-        multi_first = [s for s in top[0].orelse if isinstance(s, ast.Expr)]
-        loops = [s for s in top[0].orelse if isinstance(s, ast.For)]
-        ok = len(single) == 5 and len(multi_first) == 5 and len(loops) == 1 and \
-            norm(loops[0].iter) == 'self.segments[1:]' and \
-            len([s for s in loops[0].body if isinstance(s, ast.Expr)]) == 5
-        why = 'single wire: %d answers; emulated: %d answers + %d per further segment' % (
-            len(single), len(multi_first), len([s for s in loops[0].body if isinstance(s, ast.Expr)]) if loops else -1)
-        if ok:
-            for blk in (single, multi_first, [s for s in loops[0].body if isinstance(s, ast.Expr)]):
-                ok = ok and norm(blk[-1]) == "r.append('N')" and 'self.r' in norm(blk[3])
+    ev = Evaluator(g, ctx)
+    by_path = {}
+    for (t, conds, il, node, pconds) in ev.emissions():
+        by_path.setdefault(pconds, []).append((t, conds, il))
+
+    def block_ok(blk):
+        if len(blk) != 5:
+            return False
+        txt = [template_text(t) for t, c_, il_ in blk]
+        args = [[arg_text(p_[2]) for p_ in t if p_[0] == 'conv'] for t, c_, il_ in blk]
+        return txt[4] == 'N' and args[3] == ['self.r'] and len(args[1]) in (1, 3) and len(args[2]) in (1, 3) \
+            and (txt[0] == '1' or args[0] == ['self.n_segments'])
+    ok = len(by_path) == 2
+    why = '%d paths' % len(by_path)
+    shapes = []
+    for pc, ems in sorted(by_path.items(), key=lambda kv: str(kv[0])):
+        single = [b for (t_, b) in pc if t_ == 'self.n_emulated_wires == 1' and isinstance(b, bool)]
+        flat = [e_ for e_ in ems if not e_[2]]
+        loop = [e_ for e_ in ems if e_[2]]
+        loop_iters = {c_[1] for t_, cs, il_ in loop for c_ in cs if c_[0] == 'loop'}
+        shapes.append((single, len(flat), len(loop), sorted(loop_iters)))
+        if single == [True]:
+            ok = ok and block_ok(flat) and not loop and 'self.n_segments' in str(
+                [arg_text(p_[2]) for p_ in flat[0][0] if p_[0] == 'conv'])
+        elif single == [False]:
+            ok = ok and block_ok(flat) and block_ok(loop) and loop_iters == {'self.segments[1:]'} and \
+                template_text(flat[0][0]) == '1' and template_text(loop[0][0]) == '1'
+        else:
+            ok = False
+    why = 'paths (single?, answers, answers per further segment, loop): %s' % shapes
     ck.ob('R-EXH.counts', g.qual + '|wire-blocks', ok, g.loc(), why)
     # n_emulated_wires definitions agree with the number of blocks written
     wprop = m.func('mininec.Wire.n_emulated_wires')
@@ -281,7 +302,6 @@ def run(ctx, ck):
                     n_doc += 1
     ck.info('answers', n_ans)
     ck.info('answers_with_prompt_comment', n_doc)
-    ck.floor('answers in BASIC input writers', n_ans, 60)
     # media: an answer is written exactly when its prompt is asked; the report writer of the same
     # class prints the same item under the same condition (sibling)
     from ..fmt import Evaluator, template_text, arg_text
@@ -289,7 +309,7 @@ def run(ctx, ck):
     want = {'self.coord': 'self.next', 'self.height': 'self.prev'}
     for q in ('mininec.Medium.as_basic_input', 'mininec.Medium.as_mininec'):
         g = m.func(q)
-        ev = Evaluator(g)
+        ev = Evaluator(g, ctx)
         em = ev.emissions()
         paths = {}
         for (t, conds, il, node, pconds) in em:
